@@ -68,9 +68,9 @@ class C25(Prop):
     PROPS_FILE = "Props/C25.v"
     CORR_MODULE = "Frame.Corr"
     MAX_WORKERS = 8
-    CASE_TIMEOUT = 120
+    CASE_TIMEOUT = 900
     SHARD_TIMEOUT = 1500
-    COQ_SHARD = 250
+    COQ_SHARD = 200
     LEVEL_TEXT = (
         "Theorems (Coq, closed under the global context), for all strings / chunkings / command sequences: shlex.quote's "
         "image is read back by a model of the POSIX sh token recogniser as exactly the original word; the command lines "
@@ -183,37 +183,37 @@ class C25(Prop):
                 "out": out if kind in ("wf", "trailing") else None, "code": code}
 
     def gen(self, rng, tier):
-        k = {"quick": 1, "thorough": 6, "extended": 2}[tier]
+        k = {"quick": 1, "thorough": 5, "extended": 2}[tier]
         cases = []
-        for _ in range(250 * k):
+        for _ in range(150 * k):
             cases.append({"f": "quote", "s": hostile(rng)})
-        for _ in range(300 * k):
+        for _ in range(200 * k):
             cases.append({"f": "words", "s": self._shell_text(rng)})
-        for _ in range(100 * k):
+        for _ in range(60 * k):
             cases.append({"f": "qwords", "args": [hostile(rng) for _ in range(rng.randrange(1, 5))]})
         streams_o = [-2, -2, -2, -1, -3, "out.txt", "o ut", "o'$x"]
-        for _ in range(250 * k):
+        for _ in range(150 * k):
             cmd = [rng.choice(["echo", "a", "'x y'", "\"$K\"", "-n", "a;b"]) for _ in range(rng.randrange(1, 4))]
             o = rng.choice(streams_o)
             e = rng.choice(streams_o + [o, o])
             cases.append({"f": "create", "cmd": cmd, "env": self._env(rng),
                           "wd": rng.choice([None, "/tmp/x", "", hostile(rng, 5)]),
                           "stdin": rng.choice([None, None, -3, "in.txt", hostile(rng, 3)]), "stdout": o, "stderr": e})
-        for _ in range(120 * k):
+        for _ in range(80 * k):
             cmd = [rng.choice(["echo", "a", "'x y'", "\"$K\""]) for _ in range(rng.randrange(1, 4))]
             cases.append({"f": "build", "marker": "SF_CMD_END_" + str(rng.randrange(10**6)), "cmd": cmd,
                           "env": self._env(rng), "wd": rng.choice([None, "/tmp/x", "", hostile(rng, 5)])})
-        for _ in range(60 * k):
+        for _ in range(40 * k):
             cases.append({"f": "template", "env": self._env(rng)})
-        for _ in range(300 * k):
+        for _ in range(200 * k):
             cases.append(self._gen_frame(rng))
-        nrun = {"quick": 30, "thorough": 200, "extended": 60}[tier]
+        nrun = {"quick": 20, "thorough": 120, "extended": 40}[tier]
         for conn in ("local", "base", "qm"):
             for _ in range(nrun):
                 cases.append({"f": "run", "conn": conn, "args": [hostile(rng) for _ in range(rng.randrange(0, 4))],
                               "env": self._env(rng), "wd": rng.choice([None, self._wdname(rng)]),
                               "rc": rng.choice([0, 0, 0, 1, 3, 255])})
-        nout = {"quick": 8, "thorough": 40, "extended": 30}[tier]
+        nout = {"quick": 5, "thorough": 30, "extended": 10}[tier]
         for conn in ("local", "base"):
             for _ in range(nout):
                 cases.append({"f": "out", "conn": conn, "seed": rng.randrange(10**9),
@@ -221,7 +221,7 @@ class C25(Prop):
                                                 ([1 << 20] if tier != "quick" else [])),
                               "kind": rng.choice(["text", "text", "ws", "uni"]), "nl": rng.random() < 0.5,
                               "rc": rng.choice([0, 1, 42, 255])})
-        nseq = {"quick": 9, "thorough": 40, "extended": 12}[tier]
+        nseq = {"quick": 6, "thorough": 30, "extended": 9}[tier]
         for j in range(nseq):
             steps = []
             for _ in range(rng.randrange(2, 6)):
@@ -317,7 +317,7 @@ class C25(Prop):
             d = self._dir()
             try:
                 p = subprocess.run(["/bin/sh", "-c", "set -- " + s + "\nprintf '%s\\0' \"$#\" \"$@\""], cwd=d,
-                                   stdin=subprocess.DEVNULL, stdout=subprocess.PIPE, stderr=subprocess.DEVNULL, timeout=20,
+                                   stdin=subprocess.DEVNULL, stdout=subprocess.PIPE, stderr=subprocess.DEVNULL, timeout=300,
                                    env={"PATH": "/nonexistent", "a": "EXPANDED a", "X": "EXPANDED X"})
             except (subprocess.TimeoutExpired, ValueError):
                 return {"err": "timeout"}
@@ -400,12 +400,12 @@ class C25(Prop):
                 p = await self.asyncio.create_subprocess_exec("/bin/sh", sp, stdin=self.asyncio.subprocess.DEVNULL, cwd=d,
                                                               stdout=self.asyncio.subprocess.PIPE,
                                                               stderr=self.asyncio.subprocess.STDOUT)
-                so, _ = await self.asyncio.wait_for(p.communicate(), 60)
+                so, _ = await self.asyncio.wait_for(p.communicate(), 300)
                 out, rc = so.decode("utf-8", "replace").strip(), p.returncode
             else:
                 conn, loc = self._connector(c["conn"], d)
                 try:
-                    out, rc = await conn.run(loc, cmd, environment=env, workdir=wd, capture_output=True, timeout=60)
+                    out, rc = await conn.run(loc, cmd, environment=env, workdir=wd, capture_output=True, timeout=300)
                 finally:
                     await conn.undeploy(False)
             res["rc"] = rc
@@ -451,7 +451,7 @@ class C25(Prop):
         conn, loc = self._connector(c["conn"], d)
         res = {}
         try:
-            out, rc = await conn.run(loc, ["sh", "-c", shlex.quote(script)], capture_output=True, timeout=120)
+            out, rc = await conn.run(loc, ["sh", "-c", shlex.quote(script)], capture_output=True, timeout=300)
             exp = data.decode("utf-8").strip()
             res = {"rc": rc, "len": len(out), "same": out == exp, "sha": hashlib.sha1(out.encode()).hexdigest()[:12],
                    "exp_len": len(exp)}
@@ -471,7 +471,7 @@ class C25(Prop):
         import psutil
         me, mine = psutil.Process(), None
         quiet = 0
-        for _ in range(600):
+        for _ in range(2400):
             busy = False
             for ch in me.children(recursive=True):
                 try:
@@ -508,10 +508,10 @@ class C25(Prop):
                     pf = os.path.join(d, f"p{i}")
                     with open(pf, "w") as fh:
                         fh.write(st["out"])
-                    script, timeout = f"echo x >> {counter}; cat {pf}; exit {st['rc']}", 60
+                    script, timeout = f"echo x >> {counter}; cat {pf}; exit {st['rc']}", 300
                 else:
                     rel = os.path.join(d, f"rel{i}")
-                    script = f"echo x >> {counter}; while [ ! -e {rel} ]; do sleep 0.05; done; printf late"
+                    script = f"echo x >> {counter}; while [ ! -e {rel} ]; do sleep 0.2; done; printf late"
                     timeout = 1
                 try:
                     out, rc = await conn.run(loc, ["sh", "-c", shlex.quote(script)], capture_output=True, timeout=timeout)
@@ -519,13 +519,19 @@ class C25(Prop):
                 except Exception as e:  # noqa
                     o = {"exc": type(e).__name__}
                 if st["k"] == "to":
-                    open(rel, "w").close()          # let every started copy finish, then count them
-                    await self._settle(d)
-                    o["count"] = self._count(counter)
-                else:
-                    o["count"] = self._count(counter)
+                    open(rel, "w").close()          # release every started copy; they are counted at the end
                 o["markers"] = k[0] - m0
                 obs.append(o)
+            # Counting is structural, not timed: (1) the persistent shell is sequential, so a command sent through it
+            # now returns only after every copy the shell was asked to run has finished; (2) the fall-back copies are
+            # children of this process: wait until no descendant refers to the case directory.
+            try:
+                await conn.run(loc, ["true"], capture_output=True, timeout=240)
+            except Exception:  # noqa
+                pass
+            await self._settle(d)
+            for i, o in enumerate(obs):
+                o["count"] = self._count(os.path.join(d, f"count{i}"))
         finally:
             self.sfshell.random_name = old
             for i in range(len(c["steps"])):        # never leave a blocked command behind
